@@ -10,7 +10,7 @@ def run(rep, tier, seed):
     pr = vlib.coq_check('C05'); rep.add_proof(pr)
     if not pr['ok']:
         rep.violation({'kind': 'proof-broken', 'log': pr['log'][-3000:], 'forbidden': pr['forbidden']}, suffix='no-failing-input-found')
-    nh, nops, mp = (8, 30, 80) if tier == 'quick' else (200, 60, 100000)
+    nh, nops, mp = (8, 30, 80) if tier == 'quick' else (64, 60, 100000)
     k3check.run_crash(rep, 'C05', tier, seed, ['written', 'min', 'torn', 'dirahead'], nh, nops, mp, OPTS, known_sig=known_sig, nested=(25 if tier == 'quick' else 6))
     # clean (crash-free) reopen cycles over long log/MANIFEST-reuse histories must succeed as well
     import k2check, histgen
